@@ -469,3 +469,38 @@ func yielder(seed int64, intensity int) func() {
 		}
 	}
 }
+
+func unsafePtr(itm *nitro.Item) unsafe.Pointer { return unsafe.Pointer(itm) }
+
+// loaderStuck inspects one all-goroutine stack sample: true iff some goroutine
+// is parked in a channel send directly inside Nitro.LoadFromDisk while no
+// loader worker goroutine (a func literal of LoadFromDisk running on its own
+// goroutine) exists — nobody can ever receive, so the call can never return.
+func loaderStuck() bool {
+	buf := make([]byte, 1<<20)
+	for {
+		n := runtime.Stack(buf, true)
+		if n < len(buf) {
+			buf = buf[:n]
+			break
+		}
+		buf = make([]byte, 2*len(buf))
+	}
+	callerParked, workers := false, 0
+	for _, g := range strings.Split(string(buf), "\n\n") {
+		nl := strings.IndexByte(g, '\n')
+		if nl < 0 {
+			continue
+		}
+		hdr := g[:nl]
+		isCaller := strings.Contains(g, "nitro.(*Nitro).LoadFromDisk(")
+		isWorker := !isCaller && strings.Contains(g, "nitro.(*Nitro).LoadFromDisk.func")
+		if isWorker {
+			workers++
+		}
+		if isCaller && strings.Contains(hdr, "[chan send") {
+			callerParked = true
+		}
+	}
+	return callerParked && workers == 0
+}
